@@ -53,7 +53,11 @@ class InjectedFault(OSError):
     pass
 
 
-def _make_fs(fail_at, partial):
+class InjectedOtherFault(Exception):
+    """a failure that is neither an OSError nor a rope error (a codec error, a bug in a custom fscommands, ...)"""
+
+
+def _make_fs(fail_at, partial, exc=InjectedFault):
     from rope.base import fscommands
 
     class Faulty(fscommands.FileSystemCommands):
@@ -70,7 +74,7 @@ def _make_fs(fail_at, partial):
             if self.n == fail_at:
                 if partial and what == "write":
                     return True
-                raise InjectedFault("injected fault at fs call %d (%s)" % (self.n, what))
+                raise exc("injected fault at fs call %d (%s)" % (self.n, what))
             return False
 
         def create_file(self, p):
@@ -92,7 +96,7 @@ def _make_fs(fail_at, partial):
         def write(self, p, d):
             if self._tick("write"):
                 super().write(p, d[: len(d) // 2])
-                raise InjectedFault("injected fault after partial write")
+                raise exc("injected fault after partial write")
             super().write(p, d)
 
         def read(self, p):
@@ -219,7 +223,8 @@ def evaluate(case, env):
                 if call_log[i - 1] == "read@observer" and env.known("fault_in_observer_read"):
                     out.excluded["fault_in_observer_read"] += 1
                     continue
-                fs = _make_fs(i, partial)
+                # the class of the failure alternates with the fault index: "all-or-nothing under failure" is not about OSError
+                fs = _make_fs(i, partial, InjectedOtherFault if (i + len(call_log)) % 3 == 0 else InjectedFault)
                 root, project, changes = _setup(case, phase, fs)
                 try:
                     before = fsmodel.snapshot(root)
